@@ -23,7 +23,8 @@ rc::Gen<Case> genFor(const std::string &id, int tier) {
         auto one = [](rc::Gen<Op> o) { return rc::gen::map(o, [](Op x) { return std::vector<Op>{x}; }); };
         auto scratch = genScriptOpsFor(id, tier);
         auto edited = concat({genFileOpsFor(tier, true), one(op("load", {})), genScriptOpsFor("C01e", tier)});
-        return asCase(rc::gen::weightedOneOf<std::vector<Op>>({{4, scratch}, {1, edited}}));
+        auto noClosing = genScriptOpsFor("C01n", tier);      // the object is saved right after its last frame / column / edit call (no closing gap fill)
+        return asCase(rc::gen::weightedOneOf<std::vector<Op>>({{4, scratch}, {1, edited}, {1, noClosing}}));
     }
     if (id == "C13" || id == "C14") {
         // union workload: API histories from scratch, or a generated file that is loaded and then edited
@@ -47,6 +48,11 @@ rc::Gen<Case> genFor(const std::string &id, int tier) {
         auto one = [](rc::Gen<Op> o) { return rc::gen::map(o, [](Op x) { return std::vector<Op>{x}; }); };
         auto scratch = genScriptOpsFor(id, tier);
         auto edited = concat({genFileOpsFor(tier, true), one(op("load", {})), genScriptOpsFor(id + "e", tier)});
+        if (id == "C05") {
+            // a vendor-style header that disagrees with the parameters (0 samples per frame without channels, although the rates give a ratio)
+            auto vendor = concat({genFileOpsFor(tier, true), one(op("fzerosub", {})), one(op("load", {})), genScriptOpsFor(id + "e", tier)});
+            return asCase(rc::gen::weightedOneOf<std::vector<Op>>({{9, scratch}, {2, edited}, {1, vendor}}));
+        }
         return asCase(rc::gen::oneOf(scratch, scratch, scratch, edited));
     }
     if (id == "C02" || id == "C04" || id == "C16" || id == "C12") return genFileCase(id, tier);
